@@ -27,9 +27,26 @@ type outcome struct {
 	sql    string
 	params map[string]any
 	ms     int64
+	// abandoned: the call did not return within callDeadline
+	abandoned bool
 }
 
-func translateOnce(q *cypher.RegularQuery, mapper pgsql.KindMapper, params map[string]any) (out outcome) {
+// callDeadline: a translation that has not returned after this long is abandoned (its goroutine is left behind) and
+// reported with the time it was given, so that a translation that never ends is a recorded observation, not a stuck run.
+const callDeadline = 20 * time.Second
+
+func translateOnce(q *cypher.RegularQuery, mapper pgsql.KindMapper, params map[string]any) outcome {
+	done := make(chan outcome, 1)
+	go func() { done <- translateOnceInline(q, mapper, params) }()
+	select {
+	case out := <-done:
+		return out
+	case <-time.After(callDeadline):
+		return outcome{err: "abandoned: no result after " + callDeadline.String(), ms: callDeadline.Milliseconds(), abandoned: true}
+	}
+}
+
+func translateOnceInline(q *cypher.RegularQuery, mapper pgsql.KindMapper, params map[string]any) (out outcome) {
 	t := time.Now()
 	defer func() {
 		out.ms = time.Since(t).Milliseconds()
